@@ -158,12 +158,13 @@ pub(crate) const SERVERS: [&str; 3] = ["Firecracker API", "", "x/1"];
 /// Builds a response through the public builder API with symbolic choices; `body_mode` 0 = no
 /// body set, k+1 = body of k symbolic bytes (concrete k: the length is formatted in decimal).
 pub(crate) fn build(body_mode: usize) -> Built {
-    let (status, code) = any_status();
-    let version = any_version();
+    // PROFILE 3: status and version fixed as well (200, HTTP/1.1): only body bytes are symbolic
+    let (status, code) = if PROFILE == 3 { (StatusCode::OK, 200) } else { any_status() };
+    let version = if PROFILE == 3 { Version::Http11 } else { any_version() };
     let mut resp = Response::new(version, status);
     let mut len = if code == 100 || code == 204 { None } else { Some(0usize) };
     // optional explicit removal of the length before the body is set
-    if PROFILE != 2 && kani::any() {
+    if PROFILE < 2 && kani::any() {
         resp.set_content_length(None);
         len = None;
     }
@@ -182,11 +183,11 @@ pub(crate) fn build(body_mode: usize) -> Built {
         resp.set_body(Body::new(v));
         len = Some(body_len);
     }
-    let deprecation: bool = if PROFILE == 2 { false } else { kani::any() };
+    let deprecation: bool = if PROFILE >= 2 { false } else { kani::any() };
     if deprecation {
         resp.set_deprecation();
     }
-    let encoding: bool = if PROFILE == 2 { false } else { kani::any() };
+    let encoding: bool = if PROFILE >= 2 { false } else { kani::any() };
     if encoding {
         resp.set_encoding();
     }
@@ -207,7 +208,7 @@ pub(crate) fn build(body_mode: usize) -> Built {
         resp.set_server(SERVERS[0]);
     }
     let allow = [any_method(), any_method(), any_method()];
-    let n_allow: usize = if PROFILE == 2 { 0 } else if PROFILE == 1 { 2 } else { kani::any() };
+    let n_allow: usize = if PROFILE >= 2 { 0 } else if PROFILE == 1 { 2 } else { kani::any() };
     kani::assume(n_allow <= 3);
     if kani::any() {
         let mut v = Vec::new();
@@ -276,10 +277,10 @@ pub(crate) fn model(b: &Built) -> Out {
     o
 }
 
-// @harness props=C05,C03 tiers=quick:N=0,K=1|N=3,K=1;thorough:N=0,K=1|N=3,K=1|N=0|N=1|N=2|N=11|N=12|N=101 unwind=max(28,N+2) cap=3000 mem=12 covers=4
+// @harness props=C05 props_thorough=C03 tiers=quick:N=0,K=1|N=3,K=1;thorough:N=0,K=1|N=3,K=1|N=0|N=1|N=2|N=11|N=12|N=101 unwind=max(28,N+2) cap=3000 mem=4 covers=4
 // @fn Response::new Response::set_body Response::set_content_length Response::set_content_type Response::set_deprecation Response::set_encoding Response::set_server Response::set_allow Response::allow_method Response::write_all StatusLine::write_all ResponseHeaders::write_all ResponseHeaders::write_allow_header ResponseHeaders::write_deprecation_header Response::write_body StatusCode::raw Version::raw Method::raw MediaType::as_str
 // @claim write_all into a Vec equals the documented layout byte for byte (length and an arbitrary index), for symbolic status, version, flags, allow list (0..3 symbolic methods via either setter), server string, optional set_content_length(None) before the body; Content-Length present <=> status not in {100,204} or a body was set, and equals the body length
-// @bounds body: unset (N=0) or N-1 symbolic bytes; status x version symbolic over all 22 combinations; builder calls in one fixed order; K=1 fixes content type (json), server string (default) and the number of Allow entries (2, methods symbolic); K=2 additionally no Allow, Deprecation or Accept-Encoding lines (status and version stay symbolic)
+// @bounds body: unset (N=0) or N-1 symbolic bytes; status x version symbolic over all 22 combinations; builder calls in one fixed order; K=1 fixes content type (json), server string (default) and the number of Allow entries (2, methods symbolic); K=2 additionally no Allow, Deprecation or Accept-Encoding lines (status and version stay symbolic); K=3 additionally status 200 and HTTP/1.1
 #[kani::proof]
 fn c05_layout() {
     let b = build(N);
@@ -352,6 +353,26 @@ impl Write for ShortSink {
     }
 }
 
+/// Counts write bursts.
+pub(crate) struct CountSink {
+    pub calls: usize,
+}
+impl Write for CountSink {
+    fn write(&mut self, buf: &[u8]) -> std::io::Result<usize> {
+        self.calls += 1;
+        Ok(buf.len())
+    }
+    fn flush(&mut self) -> std::io::Result<()> {
+        Ok(())
+    }
+    fn write_all(&mut self, buf: &[u8]) -> std::io::Result<()> {
+        if !buf.is_empty() {
+            self.calls += 1;
+        }
+        Ok(())
+    }
+}
+
 /// A sink that accepts everything (what a `Vec` does), without any loop.
 pub(crate) struct ArrSink {
     pub b: [u8; OUTCAP],
@@ -376,15 +397,18 @@ impl Write for ArrSink {
     }
 }
 
-// @harness props=C05 tiers=quick:N=4,K=2;thorough:N=4,K=2|N=12,K=2|N=4,K=1 unwind=max(28,N+2) cap=3000 mem=20 covers=1
+// @harness props=C05 tiers=quick:N=4,K=3,M=0|N=4,K=3,M=2;thorough:N=4,K=3,M=0|N=4,K=3,M=2|N=4,K=3,M=9|N=12,K=3,M=0|N=4,K=2,M=0 unwind=max(28,N+2) cap=2400 mem=4 covers=1
 // @fn Response::write_all StatusLine::write_all ResponseHeaders::write_all Response::write_body
 // @claim a sink that accepts only part of a write receives exactly the bytes a Vec receives
-// @bounds body of N-1 symbolic bytes; one write call, at a symbolic position in the sequence of calls, accepts only a symbolic non-empty proper prefix; std's default write_all loop (real code) completes it
+// @bounds body of N-1 symbolic bytes; one write call (M=0: the body, the last call; otherwise call number M) accepts only a symbolic non-empty proper prefix; std's default write_all loop (real code) completes it
 #[kani::proof]
 fn c05_short_sink() {
     let b = build(N);
-    let split_call: usize = kani::any();
-    kani::assume(split_call < 40);
+    // which write call is cut short: M = 0 -> the last one (the body); otherwise call number M
+    // (concrete: a symbolic call number makes every later array write a symbolic-offset write)
+    let mut counter = CountSink { calls: 0 };
+    let _ = b.resp.write_all(&mut counter);
+    let split_call: usize = if crate::verif_params::M == 0 { counter.calls - 1 } else { crate::verif_params::M };
     let mut sink = ShortSink::new(split_call);
     let r = b.resp.write_all(&mut sink);
     assert!(r.is_ok(), "[C05] write_all into a short-writing sink failed");
@@ -393,7 +417,7 @@ fn c05_short_sink() {
     let j: usize = kani::any();
     kani::assume(j < m.n);
     assert!(sink.b[j] == m.b[j], "[C05] short-writing sink received different bytes");
-    kani::cover!(sink.was_split && sink.calls > 12);
+    kani::cover!(sink.was_split && sink.calls > 12, "a write was cut short");
     std::mem::forget(r);
     std::mem::forget(b);
 }
